@@ -8,6 +8,7 @@ import (
 	"bytes"
 	"encoding/binary"
 	"fmt"
+	"regexp"
 	"sort"
 	"strconv"
 	"strings"
@@ -108,6 +109,8 @@ func Mk(kind, desc string, write, prot bool, msgs []pgproto3.FrontendMessage, se
 }
 
 func I4(n int) []byte { return []byte(strconv.Itoa(n)) }
+
+var substrRe = regexp.MustCompile(`substr\(((?:\w+\.)?c), 1, 33\)`)
 
 // Violation is one oracle failure with its stable key.
 type Violation struct{ Key, Msg string }
@@ -226,7 +229,7 @@ func (rn *Runner) Run(stmts []Stmt) (viol []Violation, state string, harness str
 				continue
 			}
 			if enc := sess.ContainsSecret(dbRaw, sec); enc != "" {
-				add(st.Kind+"/"+role+"/plaintext-to-db:"+enc, "plaintext %.20q reached the database (%s encoding) in statement %q", sec, enc, st.Kind)
+				add(st.Kind+"/"+role+"/plaintext-to-db", "plaintext %.20q reached the database (%s encoding) in statement %q", sec, enc, st.Kind)
 			}
 		}
 		if !st.Protected {
@@ -258,9 +261,13 @@ func (rn *Runner) Run(stmts []Stmt) (viol []Violation, state string, harness str
 					}
 					if c.Search {
 						// the documented rewrite of an equality on a searchable column
-						fwd = strings.ReplaceAll(fwd, "substr(c, 1, 33)", "c")
+						fwd = substrRe.ReplaceAllString(fwd, "$1")
 					}
-					if same, err := sess.SameShape(orig, fwd); err != nil || !same {
+					same, err := sess.SameShape(orig, fwd)
+					if (err != nil || !same) && st.ShapeAs != "" {
+						same, err = sess.SameShape(st.ShapeAs, fwd)
+					}
+					if err != nil || !same {
 						add(st.Kind+"/"+role+"/shape-changed", "forwarded statement has another shape: %q -> %q (%v)", orig, fwd, err)
 					}
 				}
